@@ -4,6 +4,7 @@
 //!                     child process(es) (`wh seg ...`) on a fresh directory under <base>,
 //!                     prints one result line per op line (and one for the CASE line).
 //! `wh seg <data_dir> <mode> <backend> <sched>`  one process lifetime of one case.
+use crate::clean;
 use crate::util;
 use std::collections::HashMap;
 use std::io::{BufRead, BufReader, Write};
@@ -64,6 +65,8 @@ struct Seg {
     sched: FsyncSchedule,
     /// every payload any append attempted in this case: topic -> (pid, len)
     reg: HashMap<String, Vec<(u64, u64)>>,
+    /// C17: state of the clean-marker persister gate (inert unless the op GATE 1 was given)
+    gate: clean::Gate,
 }
 
 fn parse_mode(s: &str) -> ReadConsistency {
@@ -147,8 +150,39 @@ impl Seg {
         }
         if t[0] == "OPEN" || t[0] == "REOPEN" {
             // clean shutdown of the previous instance (if any), then a new one in this process
+            if self.gate.on {
+                // C17, persister gate on: same drop, but the persister threads are being stepped
+                let prev = clean::last_seq();
+                if let Some(w) = self.wal.take() {
+                    clean::drop_instance(&mut self.gate, w);
+                }
+                let r = self.open();
+                if self.wal.is_some() && !clean::adopt(&mut self.gate, prev) {
+                    return Some("gate:stuck".into());
+                }
+                if self.gate.forced {
+                    self.gate.forced = false;
+                    return Some(format!("{}:forced", r));
+                }
+                return Some(r);
+            }
             self.wal = None;
             return Some(self.open());
+        }
+        // C17: the clean-marker store file as it is on disk now; persister gate ops
+        match t[0] {
+            "DUMP" => return Some(clean::dump(&self.data_dir)),
+            "GATE" => return Some(clean::enable(&mut self.gate, t.get(1).and_then(|x| x.parse().ok()).unwrap_or(0), self.wal.is_some())),
+            "TB" => return Some(clean::tick_begin(&self.gate)),
+            "TU" => return Some(clean::tick_upgrade(&self.gate)),
+            "TS" => return Some(clean::tick_snapshot(&self.gate)),
+            "TE" => return Some(clean::tick_end(&self.gate)),
+            "TICK" => {
+                let r = clean::tick_begin(&self.gate);
+                return Some(if r == "p:fly" { clean::tick_end(&self.gate) } else { r });
+            }
+            "OL" => return Some(clean::orphan_land(&mut self.gate, t.get(1).and_then(|x| x.parse().ok()).unwrap_or(0))),
+            _ => {}
         }
         match t[0] {
             // I/O event seam (cfg walrus_verif): crash points, fault injection, traces
@@ -273,6 +307,10 @@ impl Seg {
             "MD" => {
                 wal.mark_topic_dirty(&topic_name(t[1]));
                 "ok".into()
+            }
+            "WAITSYNC" => {
+                let topics: Vec<String> = t[1..].iter().map(|x| topic_name(x)).collect();
+                clean::wait_sync(wal, &self.data_dir, &topics)
             }
             // C11: consume everything the instance will deliver, for every topic it knows
             // (recovered topic names included) and every topic of the registry.
@@ -409,6 +447,7 @@ pub fn seg_main(args: &[String]) {
         mode: parse_mode(&args[1]),
         sched: parse_sched(&args[3]),
         reg: HashMap::new(),
+        gate: clean::Gate::default(),
     };
     let stdin = std::io::stdin();
     let stdout = std::io::stdout();
@@ -421,6 +460,11 @@ pub fn seg_main(args: &[String]) {
         }
     }
     // EOF: clean shutdown
+    if seg.gate.on {
+        if let Some(w) = seg.wal.take() {
+            clean::drop_instance(&mut seg.gate, w);
+        }
+    }
     seg.wal = None;
 }
 
